@@ -55,6 +55,13 @@ func main() {
 		for _, id := range props.IDs() {
 			fmt.Println(id)
 		}
+	case "inventory":
+		p, err := core.Load(core.RepoRootFromEnv())
+		if err != nil {
+			fmt.Println("ERROR load:", err)
+			os.Exit(1)
+		}
+		props.Inventory(p)
 	case "ssa":
 		p, err := core.Load(core.RepoRootFromEnv())
 		if err != nil {
